@@ -1370,6 +1370,112 @@ func ruleExecutorGetsTracker(c *Ctx, r *Reporter) {
 		return ok && fieldVarOf(st.Addr) == tmF && !isNilConst(st.Val)
 	}
 	hit, path := ReachE(fn, nil, func(x ssa.Instruction) bool { return x == ssa.Instruction(call) }, isDefault, PruneFactEdges(nonNil))
+	// or: the value handed over is known to be non-nil by construction (a local that was defaulted)
+	for _, a := range call.Call.Args {
+		if strings.Contains(a.Type().String(), "Tombstone") && valueNonNil(a, call.Block(), 0) {
+			argOK, hit = true, nil
+		}
+	}
 	r.Check(argOK && hit == nil, FnName(fn)+":executor-tracker", c.InsPos(call), "the default executor receives options.TombstoneManager after it was defaulted",
 		"the default executor can be constructed while options.TombstoneManager is still nil (the default is applied later, or another value is passed): the executor never consults the deletes the coordinator records and drops their tombstones by the level rule alone — a deleted key comes back when an older version sits in a deeper level", c.PathString(path)...)
+}
+
+// valueNonNil: v is non-nil at block b by construction: a constructor result, a value behind a dominating non-nil test,
+// or a phi of such values.
+func valueNonNil(v ssa.Value, b *ssa.BasicBlock, d int) bool {
+	if d > 5 || v == nil {
+		return false
+	}
+	switch x := v.(type) {
+	case *ssa.MakeInterface:
+		return valueNonNil(x.X, b, d+1)
+	case *ssa.ChangeInterface:
+		return valueNonNil(x.X, b, d+1)
+	case *ssa.Call:
+		if f := x.Call.StaticCallee(); f != nil && strings.HasPrefix(f.Name(), "New") {
+			return true
+		}
+	case *ssa.Alloc:
+		return true
+	case *ssa.Phi:
+		for i, e := range x.Edges {
+			if !valueNonNil(e, x.Block().Preds[i], d+1) {
+				// the edge may come from the non-nil side of a test on the value itself
+				if knownNilnessOnEdge(e, x.Block().Preds[i], x.Block()) != +1 {
+					return false
+				}
+			}
+		}
+		return true
+	}
+	return knownNilness(v, b) == +1
+}
+
+// knownNilnessOnEdge: nil-ness of v established by the branch that ends pred and leads to succ.
+func knownNilnessOnEdge(v ssa.Value, pred, succ *ssa.BasicBlock) int {
+	if len(pred.Instrs) == 0 {
+		return 0
+	}
+	iff, ok := pred.Instrs[len(pred.Instrs)-1].(*ssa.If)
+	if !ok {
+		return knownNilness(v, pred)
+	}
+	tv, trueIsNonNil, ok := nilTest(iff.Cond)
+	if !ok || !sameValue(tv, v) {
+		return knownNilness(v, pred)
+	}
+	onTrue := pred.Succs[0] == succ
+	if onTrue == trueIsNonNil {
+		return +1
+	}
+	return -1
+}
+
+// ruleWalCounterUnderLock: every access to WAL.nextSequence outside constructors holds WAL.mu. The rotation reads the old
+// log's counter through GetNextSequence() and relies on that read waiting for an append (or batch) still in flight.
+func ruleWalCounterUnderLock(c *Ctx, r *Reporter) {
+	r.Rule("counter-accessed-under-the-log-lock", 6)
+	a := getWalAnchors(c, r)
+	if !a.ok {
+		return
+	}
+	li := c.Locks()
+	ctor := c.CtorOnly()
+	for _, fn := range c.KevoFns {
+		if pkgOf(fn) != "pkg/wal" || fn.Parent() != nil || ctor[fn] || strings.HasPrefix(fn.Name(), "NewWAL") || fn.Name() == "ReuseWAL" {
+			continue
+		}
+		n, bad := 0, 0
+		var pos ssa.Instruction
+		AllInstrs(fn, false, func(_ *ssa.Function, ins ssa.Instruction) {
+			acc := false
+			switch x := ins.(type) {
+			case *ssa.UnOp:
+				acc = x.Op == token.MUL && fieldVarOf(x.X) == a.nextSeq
+			case *ssa.Store:
+				acc = fieldVarOf(x.Addr) == a.nextSeq
+			}
+			if name, addr, _ := atomicCall(ins); name != "" && fieldVarOf(addr) == a.nextSeq {
+				acc = true
+			}
+			if !acc {
+				return
+			}
+			n++
+			h := li.HeldAt(ins)
+			if !h.Holds("wal.WAL.mu", "W") && !h.Holds("wal.WAL.mu", "R") {
+				bad++
+				pos = ins
+			}
+		})
+		if n == 0 {
+			continue
+		}
+		p := c.FnPos(fn)
+		if pos != nil {
+			p = c.InsPos(pos)
+		}
+		r.Check(bad == 0, FnName(fn)+":nextSequence", p, fmt.Sprintf("%d access(es), all with WAL.mu held", n),
+			fmt.Sprintf("%d of %d access(es) to the sequence counter happen without WAL.mu: a reader (the rotation's hand-over through GetNextSequence) no longer waits for an append in flight and copies a counter the in-flight batch is about to use", bad, n))
+	}
 }
